@@ -706,11 +706,12 @@ class Bf3File:
                 bf2fileobj.close()
         for instr, params in bf2_objs:
             if instr == "load":
+                for fwline in params:
+                    if not is_known_tagtype(fwline.fwtagtype):
+                        raise Bf3FileFormatError(
+                            "TagType 0x{:02X} is not recognized by ConfigEditor"
+                            .format(fwline.fwtagtype))
                 fwtagtype = params[0].fwtagtype
-                if not is_known_tagtype(fwtagtype):
-                    raise Bf3FileFormatError(
-                        "TagType 0x{:02X} is not recognized by ConfigEditor"
-                        .format(fwtagtype))
                 start_new_tag = fwtagtype in BF2_TAGTYPE_MAP and bf2_fwdata
                 if start_new_tag:
                     emit_bf3comp()
